@@ -3,9 +3,10 @@
 //! note: on-chain claim fee bumping: compute_fee_from_spent_amounts / feerate_bump (package.rs) and the fee-estimator floor wrapper (chaininterface.rs)
 //! trusted: assume_specification for core::cmp::max / core::cmp::min / Result::unwrap_or (std definitions); trait FeeEstimator is reduced to get_est_sat_per_1000_weight with an unconstrained result (any estimator); trait Logger empty (R3 removes log statements)
 //! assume: compute_package_feerate: the fee estimator never returns more than u32::MAX/5 = 858_993_459 sat/kW (`feerate_estimate * 5` is computed in u32; observation O4 in DESIGN)
-//! trusted: payload structs of PackageSolvingData (RevokedOutput, ... HolderHTLCOutput) are skeletons keeping the fields the code reads; PackageSolvingData::amount() is external_body with an uninterpreted result; BitcoinOutPoint, AggregationCluster opaque
+//! trusted: payload structs of PackageSolvingData (RevokedOutput, ... HolderHTLCOutput) are skeletons keeping the fields the code reads; PackageSolvingData::amount() is external_body with an uninterpreted result; BitcoinOutPoint opaque; AggregationCluster is extracted, its derived == is modelled as structural equality
 //! trusted: R6: `.iter().find_map(|(_, outp)| V)` and `.iter().filter_map(|(_, outp)| V).max()` in PackageTemplate::signed_locktime / package_locktime become index loops carrying V verbatim
 //! assume: HolderHTLCOutput invariant (preimage is Some ==> cltv_expiry == 0, established by its constructors, checked by a debug_assert in the source); PackageTemplate::signed_locktime is extracted with cfg(debug_assertions) off (its debug-only consistency loop is dropped)
+//! trusted: can_merge_with is extracted with release semantics: the cfg(debug_assertions) consistency loops and the `debug_assert!(false, ..)` on its defensive different-tx-tree branch are dropped (the branch itself, returning false, is kept and verified)
 //! assume: heights and CLTV expiries <= 2^31-1; total claimable value of a package <= 21e14 sat; compute_package_output is called with input_amounts >= dust_limit_sats for the "never above the inputs" clause (observation O3 in DESIGN)
 //! assume: 100 <= predicted_weight <= 4_000_000; input_amounts <= 21e14 sat; 1 <= previous_feerate <= 2^32-1; dust_limit_sats >= 1 (the caller asserts it)
 use vstd::prelude::*;
@@ -123,6 +124,7 @@ pub proof fn lemma_rate_back(new_fee: int, pf: int, w: int)
 // ---------- PackageTemplate methods ----------
 //@const lightning/src/chain/package.rs LOW_FREQUENCY_BUMP_INTERVAL MIDDLE_FREQUENCY_BUMP_INTERVAL HIGH_FREQUENCY_BUMP_INTERVAL
 //@const lightning/src/ln/channelmanager.rs MIN_CLTV_EXPIRY_DELTA
+//@const lightning/src/chain/channelmonitor.rs COUNTERPARTY_CLAIMABLE_WITHIN_BLOCKS_PINNABLE
 pub struct HTLCOutputInCommitment { pub cltv_expiry: u32 }
 pub struct RevokedOutput {}
 pub struct RevokedHTLCOutput {}
@@ -131,10 +133,15 @@ pub struct CounterpartyReceivedHTLCOutput { pub htlc: HTLCOutputInCommitment }
 pub struct HolderHTLCOutput { pub preimage: Option<[u8; 32]>, pub cltv_expiry: u32 }
 pub struct HolderFundingOutput {}
 pub struct BitcoinOutPoint {}
-pub struct AggregationCluster {}
+//@extract lightning/src/chain/package.rs :: enum AggregationCluster
+//@derive Clone Copy
+//@end
+impl vstd::std_specs::cmp::PartialEqSpecImpl for AggregationCluster { open spec fn obeys_eq_spec() -> bool { true } open spec fn eq_spec(&self, other: &AggregationCluster) -> bool { *self == *other } }
+impl PartialEq for AggregationCluster { #[verifier::external_body] fn eq(&self, o: &AggregationCluster) -> (r: bool) { core::mem::discriminant(self) == core::mem::discriminant(o) } }
 //@extract lightning/src/chain/package.rs :: enum PackageSolvingData
 //@end
 //@extract lightning/src/chain/package.rs :: enum PackageMalleability
+//@derive Clone Copy
 //@end
 //@extract lightning/src/chain/package.rs :: struct PackageTemplate
 //@end
@@ -142,6 +149,12 @@ pub uninterp spec fn amount_spec(d: PackageSolvingData) -> u64;
 impl PackageSolvingData {
     #[verifier::external_body]
     fn amount(&self) -> (r: u64) ensures r == amount_spec(*self) { unimplemented!() }
+//@extract lightning/src/chain/package.rs :: impl PackageSolvingData :: fn is_possibly_from_same_tx_tree
+//@r7
+//@ret r
+//@ensures P C06,C07 claims-are-classed-by-the-commitment-they-spend-from-justice-counterparty-holder
+    r == (tree_of(*self) == tree_of(*other)),
+//@end
 //@extract lightning/src/chain/package.rs :: impl PackageSolvingData :: fn minimum_locktime
 //@ret r
 //@ensures A only-claims-of-received-htlcs-on-the-counterpartys-commitment-are-timelocked
@@ -155,6 +168,14 @@ impl PackageSolvingData {
 //@ensures A pre-signed-holder-htlc-transactions-fix-their-locktime
     r == signed_lock_of(*self),
 //@end
+}
+// which transaction tree an input spends from: 0 = a revoked counterparty commitment (justice), 1 = the counterparty's current commitment, 2 = ours
+pub open spec fn tree_of(d: PackageSolvingData) -> int {
+    match d {
+        PackageSolvingData::RevokedOutput(_) => 0, PackageSolvingData::RevokedHTLCOutput(_) => 0,
+        PackageSolvingData::CounterpartyOfferedHTLCOutput(_) => 1, PackageSolvingData::CounterpartyReceivedHTLCOutput(_) => 1,
+        PackageSolvingData::HolderHTLCOutput(_) => 2, PackageSolvingData::HolderFundingOutput(_) => 2,
+    }
 }
 pub open spec fn min_lock_of(d: PackageSolvingData) -> Option<u32> {
     match d { PackageSolvingData::CounterpartyReceivedHTLCOutput(o) => Some(o.htlc.cltv_expiry), _ => None }
@@ -202,6 +223,16 @@ pub open spec fn deadline_of(d: PackageSolvingData, csh: u32) -> Option<int> {
         PackageSolvingData::HolderHTLCOutput(o) => if o.preimage is Some { Some(csh as int) } else { Some(o.cltv_expiry as int + MIN_CLTV_EXPIRY_DELTA as int) },
         PackageSolvingData::HolderFundingOutput(_) => Some(0),
     }
+}
+pub open spec fn pkg_wf(p: PackageTemplate) -> bool {
+    &&& forall|k: int| 0 <= k < p.inputs@.len() ==> holder_htlc_wf(#[trigger] p.inputs@[k].1)
+    &&& ((exists|k: int| 0 <= k < p.inputs@.len() && signed_lock_of(#[trigger] p.inputs@[k].1) is Some)
+        ==> (forall|k: int| 0 <= k < p.inputs@.len() ==> min_lock_of(#[trigger] p.inputs@[k].1) is None))
+}
+// an output the counterparty can (or within COUNTERPARTY_CLAIMABLE_WITHIN_BLOCKS_PINNABLE blocks will be able to) spend as well
+pub open spec fn pinnable(p: PackageTemplate, cur_height: u32) -> bool {
+    p.malleability == PackageMalleability::Malleable(AggregationCluster::Pinnable)
+        || p.counterparty_spendable_height as int <= cur_height + COUNTERPARTY_CLAIMABLE_WITHIN_BLOCKS_PINNABLE
 }
 impl PackageTemplate {
 //@extract lightning/src/chain/package.rs :: impl PackageTemplate :: fn package_amount
@@ -323,6 +354,31 @@ impl PackageTemplate {
     core::cmp::max(current_height, minimum_locktime.unwrap_or(0))
 //@with
     current_height
+//@end
+
+//@extract lightning/src/chain/package.rs :: impl PackageTemplate :: fn can_merge_with
+//@cfg debug_assertions=false
+//@rw R10
+    debug_assert!(false);
+//@with
+    
+//@ret r
+//@requires
+    cur_height <= 0x7fff_ffff,
+    pkg_wf(*self), pkg_wf(*other),
+//@ensures P C06,C07 claims-are-aggregated-only-within-one-transaction-tree-with-one-locktime-and-never-across-the-pinnable-unpinnable-divide
+    r ==> self.malleability is Malleable && other.malleability is Malleable
+        && self.inputs@.len() > 0 && other.inputs@.len() > 0
+        && tree_of(self.inputs@[0].1) == tree_of(other.inputs@[0].1)
+        && (pinnable(*self, cur_height) <==> pinnable(*other, cur_height)),
+//@mutant pinnable_merged_with_unpinnable
+    if self_pinnable && other_pinnable {
+//@with
+    if self_pinnable || other_pinnable {
+//@mutant different_tx_trees_merged
+    if !self.inputs[0].1.is_possibly_from_same_tx_tree(&other.inputs[0].1) {
+//@with
+    if false {
 //@end
 
 //@extract lightning/src/chain/package.rs :: impl PackageTemplate :: fn compute_package_feerate
